@@ -66,7 +66,8 @@ func newEnv() *env {
 		panic(err)
 	}
 	e.jwk = upd.JWK()
-	for _, d := range []string{`{}`, `{"m":{"n":1},"a":[1,2],"publicKey":[{"id":"k1","type":"JsonWebKey2020","publicKeyJwk":{"kty":"EC","crv":"P-256","x":"eA","y":"eQ"}}],"service":[{"id":"s1","type":"T","serviceEndpoint":"https://s.example/"}]}`} {
+	for _, d := range []string{`{}`, `{"m":{"n":1},"a":[1,2],"publicKey":[{"id":"k1","type":"JsonWebKey2020","publicKeyJwk":{"kty":"EC","crv":"P-256","x":"eA","y":"eQ"}}],"service":[{"id":"s1","type":"T","serviceEndpoint":"https://s.example/"}]}`,
+		`{"m":[{"n":[1]},[2]],"o":{"0":{"n":[1]},"00":{"n":2},"1":[2]}}`} {
 		doc, _ := document.FromBytes([]byte(d))
 		e.docs = append(e.docs, doc)
 	}
